@@ -1744,6 +1744,26 @@ static void pngWriteData(png_structp png_ptr, png_bytep data,
     memcpy(vs->tight.png.buffer + vs->tight.png.offset, data, length);
 #endif
     rfbClientPtr cl = png_get_io_ptr(png_ptr);
+
+    /* The PNG image (3 bytes per pixel plus framing) can be larger than afterEncBuf, which
+       is sized for the client's pixel format: grow the buffer instead of writing past its
+       end.  A negative length marks a failed allocation; SendPngRect() then fails. */
+    if (cl->tightPngDstDataLen < 0)
+        return;
+    if ((size_t)cl->tightPngDstDataLen + length > (size_t)cl->afterEncBufSize) {
+        size_t need = (size_t)cl->tightPngDstDataLen + length;
+        size_t newSize = (size_t)cl->afterEncBufSize * 2;
+        char *grown;
+        if (newSize < need)
+            newSize = need;
+        grown = (char *)realloc(cl->afterEncBuf, newSize);
+        if (grown == NULL) {
+            cl->tightPngDstDataLen = -1;
+            return;
+        }
+        cl->afterEncBuf = grown;
+        cl->afterEncBufSize = (int)newSize;
+    }
     memcpy(cl->afterEncBuf + cl->tightPngDstDataLen, data, length);
 
     cl->tightPngDstDataLen += length;
@@ -1862,6 +1882,11 @@ static rfbBool SendPngRect(rfbClientPtr cl, int x, int y, int w, int h) {
     pngFree(png_ptr, png_palette);
 
     png_destroy_write_struct(&png_ptr, &info_ptr);
+
+    if (cl->tightPngDstDataLen < 0) {
+        rfbLog("SendPngRect: failed to allocate memory\n");
+        return FALSE;
+    }
 
     /* done v */
 
